@@ -159,4 +159,82 @@ pub fn run(rep: &mut Rep) {
         let cell = std::cell::RefCell::new(&mut *rep);
         enumerate::explore(d, 2, shard, nshards, |ch| body(&mut cell.borrow_mut(), ch));
     }
+    // many unfinished handshakes at once (the enumeration above keeps at most 4 in flight)
+    let ns: Vec<usize> = if rep.quick() { vec![9, 17, 33, 65, 129, 300] } else { vec![7, 8, 9, 15, 16, 17, 31, 32, 33, 63, 64, 65, 127, 128, 129, 255, 256, 257, 1000, 3000] };
+    rep.note(&format!("wide: {:?} QoS 1/2 publishes unfinished at once (a sixth of them already released by PUBREC, some acknowledged and finished in between), connection cut, session resumed: all of them re-sent in order, all futures complete on the new connection; also with the resuming CONNACK announcing Receive Maximum 10", ns));
+    let mut widx = 80_000_000u64;
+    for (ni, &n) in ns.iter().enumerate() {
+        for variant in 0..3u8 {
+            let id = format!("wide:{n}:{variant}");
+            widx += 1;
+            if !rep.take(widx, &id) {
+                continue;
+            }
+            let mut w = World::boot(WorldCfg { seed: rep.seed.wrapping_add(ni as u64), sei: Some(3600), ..Default::default() });
+            w.sim.log_enabled = n <= 40;
+            for j in 0..n {
+                let i = w.start(j % 2, if j % 3 == 2 { Kind::Pub2 } else { Kind::Pub1 });
+                w.settle();
+                if j % 6 == 5 && w.m[i].req_wire.is_some() {
+                    w.deliver_ack(i, 1, 0, 0);
+                    w.settle();
+                }
+                if j % 7 == 3 {
+                    // one exchange finishes completely in between
+                    if let Some(&(k, st)) = w.ackable().first() {
+                        w.deliver_ack(k, st, 0, 0);
+                        w.settle();
+                        if let Some(&(k2, st2)) = w.ackable().iter().find(|(x, s2)| *x == k && *s2 == 2) {
+                            w.deliver_ack(k2, st2, 0, 0);
+                            w.settle();
+                        }
+                    }
+                }
+            }
+            w.settle_check();
+            if variant == 1 {
+                w.read_err();
+            } else {
+                w.eof();
+            }
+            w.settle_check();
+            let (pubs, rels) = w.unfinished();
+            let resumed = w.resume_full(ResumeOpts { secs_ago: 1, sei: Some(3600), receive_max: if variant == 2 { Some(10) } else { None }, ..Default::default() });
+            rep.add("resumptions", 1);
+            rep.add("resumed_sessions", 1);
+            rep.add("publishes_expected_resent", pubs.len() as i64);
+            rep.add("pubrels_expected_resent", rels.len() as i64);
+            rep.max("max_handshakes_resent_at_once", (pubs.len() + rels.len()) as i64);
+            if resumed && !w.blind {
+                for _ in 0..3 {
+                    for (i, st) in w.ackable() {
+                        w.deliver_ack(i, st, 0, 0);
+                        w.settle();
+                        rep.add("acks_on_resumed_connection", 1);
+                    }
+                    w.settle_check();
+                }
+                for i in 0..w.m.len() {
+                    if w.m[i].kind.is_qos_pub() && w.m[i].accepted == Some(true) && !w.m[i].dropped && w.sim.ops[i].out.is_none() {
+                        let k = w.m[i].kind.name();
+                        w.viol(&["C17"], format!("C17/original-future-not-completed/{k}"), format!("op{i}: still pending after its acknowledgement was delivered on the resumed connection"));
+                    }
+                }
+            }
+            finish(&mut w);
+            for v in w.viols.iter_mut() {
+                if !v.props.contains(&"C17") && !v.props.contains(&"*") && !v.props.contains(&"C10") {
+                    v.sig = format!("C17/after-resume/{}", v.sig);
+                    v.props = &["C17"];
+                }
+            }
+            rep.add("evaluations", 1);
+            rep.add("wide_cases", 1);
+            rep.distinct(&("wide", n, variant));
+            if harvest(rep, &mut w, &id) == 0 {
+                rep.sample(|| format!("{id}: {} PUBLISH and {} PUBREL re-sent in order, all futures completed", pubs.len(), rels.len()));
+            }
+            add_counters(rep, &w);
+        }
+    }
 }
